@@ -316,7 +316,10 @@ def main(argv=None):
     assumed = [c for c in R.all() if c.assume_only and prop in c.props]
     ctx = mp.get_context('fork')
     recs = []
-    with ctx.Pool(min(a.jobs, max(1, len(jobs_c) + len(jobs_o)))) as pool:
+    # every job runs in a process forked freshly from this one (maxtasksperchild=1): the solver context a job starts from - and with
+    # it the naming and ordering of the terms it builds, to which the solvers' heuristics are sensitive - does not depend on which
+    # jobs the scheduler happened to give the same worker before
+    with ctx.Pool(min(a.jobs, max(1, len(jobs_c) + len(jobs_o))), maxtasksperchild=1) as pool:
         r1 = pool.map_async(work_contract, jobs_c, chunksize=1)
         r2 = pool.map_async(work_other, jobs_o, chunksize=1)
         recs = r1.get() + r2.get()
